@@ -175,8 +175,8 @@ func (m MapSchema[K, V]) validateSchemaCompatibility(schemaType Type) error {
 	// Must have size overlap.
 	minValue := minField.Call([]reflect.Value{})[0].Interface().(*int64)
 	maxValue := maxField.Call([]reflect.Value{})[0].Interface().(*int64)
-	if (m.MinValue != nil && maxValue != nil && (*minValue) > (*m.MaxValue)) ||
-		(m.MaxValue != nil && minValue != nil && (*maxValue) < (*m.MinValue)) {
+	if (minValue != nil && m.MaxValue != nil && (*minValue) > (*m.MaxValue)) ||
+		(maxValue != nil && m.MinValue != nil && (*maxValue) < (*m.MinValue)) {
 		return &ConstraintError{
 			Message: "mutually exclusive lengths between map schemas",
 		}
